@@ -15,12 +15,7 @@ def run_seed(verif_seed: int, prop: str, i: int) -> int:
 
 
 def op_keys(udesc: dict) -> list[str]:
-    out = []
-    for c in udesc["collections"]:
-        for k in c["kinds"]:
-            path = f"/{c['name']}" if k in ("create", "list") else f"/{c['name']}/{{id}}"
-            out.append(f"{KIND_METHOD[k].upper()} {path}")
-    return out
+    return list(Universe(udesc).ops)
 
 
 def gen_schedule(rng: random.Random, *, fault_free: bool = False) -> dict:
